@@ -99,10 +99,13 @@ claim('C16', 'other', 'contract-based deductive verification of the bit-level co
 
 for _k in ('C10', 'C12'):
     NA.pop(_k, None)
-claim('C10', 'other', 'contract-based deductive verification of the five composition wrappers against the callee contract of connect_circuit (argument forwarding); bounded stand-in for connect_circuit itself',
-      'Proved for arbitrary circuits and arbitrary (possibly empty) connector sequences: connect_left, connect_right, connect_inputs, extend_circuit (all eight given/defaulted combinations, both directions) and add_circuit call connect_circuit exactly once with the documented arguments '
-      '(explicit empty lists are passed through; None defaults to the interface lists) and return its result. connect_circuit itself is bounded-only (enumerated pairs against the composition oracle); one known finding is listed for it.',
-      T_ASSUME, 'DESIGN.md §6 C10')
+claim('C10', 'other', 'contract-based deductive verification of connect_circuit in left mode without a block name on two arbitrary circuits (loop invariant over the contract of top_sort, name map, filter / mapped / concatenated list views) and of the five composition wrappers against the callee contract of connect_circuit (argument forwarding); bounded stand-in for the other modes',
+      'connect_circuit(other, this_connectors, other_connectors) with right_connect=False and name=\'\', up to 2 connector pairs, self and other arbitrary well-formed circuits (other without blocks), proved: the gates of other are copied under their own labels except the connector inputs; '
+      'a copied gate keeps type and arity and operand j is operand j of the original with every connector replaced by the chosen gate of self; gates of self are unchanged; outputs = outputs of self not among the this-connectors plus outputs of other not among the other-connectors; '
+      'inputs = the inputs of self in their order followed by the unconnected inputs of other; WF is kept; other is not modified; only CircuitValidationError (block named \'\' exists, connector missing, label clash — with the clashing label as witness) or CreateBlockError (repeated / non-input connector) can be raised. '
+      'Rule R2 turns the copied definitions into the composed function. The five wrappers (connect_left, connect_right, connect_inputs, extend_circuit in all eight given/defaulted combinations and both directions, add_circuit) are proved to call connect_circuit exactly once with the documented arguments. '
+      'Right-connect mode (one known finding is listed for it), named blocks with prefixes, blocks of the attached circuit and more connector pairs are bounded-only (enumerated pairs against the composition oracle).',
+      T_ASSUME + 'contract of top_sort (proved under C20); ghost rank bound of the base circuit; semantics of filter / map comprehensions and list concatenation as order-preserving views.', 'DESIGN.md §6 C10')
 claim('C12', 'other', 'contract-based deductive verification of the canonical-index helpers (digit-string and power-of-two models); bounded stand-in (exhaustive small functions) for the protocol queries',
       'Proved for all values: input_to_canonical_index is the big-endian value of 0..5 input bits; get_bit_value(v, i, n) is bit n-1-i of v. The twelve protocol queries of the three representations, model completion and integer wrappers are bounded-only '
       '(all functions with n<=2, m<=2 quick; n<=3, m<=2 thorough, exhaustive).',
